@@ -203,6 +203,7 @@ var boundsValidate = []string{
 func checkC01(cc *CheckCtx, r *Report) {
 	ts := TmplSpec{Depth: 2, MaxLen: 2, MaxKeys: 3}
 	skels := append(FamilySingle(ts), FamilyPair(ts, true)...)
+	skels = append(skels, FamilyNest(ts, false)...)
 	if cc.Thorough() {
 		ts3 := TmplSpec{Depth: 2, MaxLen: 3, MaxKeys: 4}
 		skels = append(skels, FamilyTriple(ts, cc.Seed, 300)...)
